@@ -86,6 +86,16 @@ def aggregate(pid, tier, seed, results, meta, wall):
                             cut=r.get('cut'), obligations=r.get('obligations'),
                             discharged=r.get('discharged'),
                             wall_s=round(r.get('wall_s', 0), 2)))
+    # reachability guard: a job (with the sub-jobs it was split into) that
+    # discharged no obligation at all checked nothing
+    fam = {}
+    for r in results:
+        if 'crashed' in r:
+            continue
+        base = r['name'].split(' [below prefix', 1)[0]
+        fam[base] = fam.get(base, 0) + r.get('obligations', 0)
+    vacuous = sorted(k for k, v in fam.items() if v == 0)
+    cov['vacuous_jobs'] = vacuous
     cov.update(
         rule='one evaluation = one feasible path of the real code explored '
              'symbolically (completed or cut at the stated bound); '
@@ -192,6 +202,11 @@ def main(argv):
             print(n)
     for p in valprob[:5]:
         print('VALIDATION-PROBLEM:', p)
+    if ev['coverage']['vacuous_jobs']:
+        for v in ev['coverage']['vacuous_jobs'][:5]:
+            print('HARNESS-ERROR: no obligation was reached (every path cut '
+                  'or aborted): %s' % v)
+        return 3 if rc == 0 else rc
     if crashed:
         for cr in crashed[:3]:
             print('HARNESS-ERROR: job crashed: %s\n%s' % (cr['name'],
